@@ -6,7 +6,7 @@ import ast
 import re
 from typing import Optional
 
-from ..core import Checker, Rule, attr_calls, callee_is, calls_in, kwarg, resolved_calls, short
+from ..core import Checker, Rule, moved_lookup, attr_calls, callee_is, calls_in, kwarg, resolved_calls, short
 from ..grammar import schema
 from ..interp import MUTATORS, Pins, find_nodes, unparse
 from ..model import AnalysisError, Func
@@ -237,8 +237,9 @@ def r_order(ck: Checker) -> None:
                 detail = f"loop over hash-ordered `{short(text, 60)}` executes order-sensitive `{short(bad, 70)}`"
             else:
                 detail = f"hash-ordered `{short(text, 60)}` is turned into a sequence by {context} and flows on"
-            if key in TRIAGE:
-                ck.add(sig, True, func, node, detail + f" - triaged: {TRIAGE[key]}", "", rule="C17.ORDER")
+            tri = moved_lookup(TRIAGE, key[0], key[1], {f.short for f in ck.prg.funcs.values()})
+            if tri is not None:
+                ck.add(sig, True, func, node, detail + f" - triaged: {tri}", "", rule="C17.ORDER")
                 continue
             ck.add(sig, False, func, node, detail,
                    "hash(AST) is address based and hash(str) seed based: the iteration order of this container differs between processes, so anything emitted in that order (argument lists, rule order, generated names) makes the output irreproducible",
